@@ -495,9 +495,9 @@ int main(int argc, char** argv)
   int part = argc > 1 ? atoi(argv[1]) : -1;
   // parts are slices of the type list so the runs are parallel
 #define RUN(k, ...) if (part < 0 || part == k) { __VA_ARGS__; }
-  RUN(0, scalar<bool>(rng); scalar<char>(rng); scalar<long>(rng); scalar<float>(rng))
-  RUN(1, scalar<signed char>(rng); scalar<unsigned char>(rng); scalar<unsigned long>(rng); scalar<double>(rng))
-  RUN(2, scalar<short>(rng); scalar<unsigned short>(rng); scalar<long long>(rng); scalar<E32>(rng))
+  RUN(0, scalar<bool>(rng); scalar<char>(rng); scalar<long>(rng); scalar<float>(rng); scalar<char16_t>(rng))
+  RUN(1, scalar<signed char>(rng); scalar<unsigned char>(rng); scalar<unsigned long>(rng); scalar<double>(rng); scalar<char32_t>(rng))
+  RUN(2, scalar<short>(rng); scalar<unsigned short>(rng); scalar<long long>(rng); scalar<E32>(rng); scalar<wchar_t>(rng))
   RUN(3, scalar<int>(rng); scalar<unsigned int>(rng); scalar<unsigned long long>(rng); pointers(rng); struct_fields(rng))
   // enumerations whose underlying type has another width under this ABI: the sandbox image must have the width the ABI
   // gives the underlying type (a real guest compiled for this ABI lays the enum out like that)
